@@ -563,10 +563,11 @@ func scenarioRacyWait(kind int) {
 	out.Stat("scenario_racywait", 1)
 }
 
-// "... or crashing": two overlapping Close calls of one subscribed client. Both can pass the
-// `isClosed == 1 || topic == nil` check (isClosed is set only at the end of Close), and the second
-// close(client.done) panics. Lean: `never_panics_full_false`; when the panic is observed the witness schedule
-// is written out as op lines so that the model is shown to produce the same outcome.
+// "... or crashing": two overlapping Close calls of one subscribed client. Before /repo commit c931423 both
+// could pass the `isClosed == 1 || topic == nil` check (isClosed is set only at the end of Close) and the second
+// close(client.done) panicked (Lean: `old_close_panics_on_overlap`). Now the entry of Close takes `isCloseing` by
+// compare-and-swap and the loser returns at once (Lean: `never_panics`). The probe stays strict: a panic is a
+// predicate failure, and the old witness schedule is written out as op lines, which the model no longer follows.
 func probeDoubleClose(tries int, prefix bool) {
 	q := queue.New("verif-dclose")
 	q.SetConfig(cfg)
